@@ -15,11 +15,27 @@ func Evaluate(node parser.Node, data any) (any, error) {
 	return e.evaluate(node, data, nil)
 }
 
+// maxDepth limits the depth of the expression tree that is evaluated, so that
+// a long chain of operators or selectors cannot exhaust the goroutine stack.
+const maxDepth = 50000
+
 type evaluator struct {
-	root any
+	root  any
+	depth int
 }
 
 func (e *evaluator) evaluate(node parser.Node, current any, variables *variableScope) (any, error) {
+	e.depth++
+	if e.depth > maxDepth {
+		return nil, errExpressionTooDeep
+	}
+
+	result, err := e.evaluateNode(node, current, variables)
+	e.depth--
+	return result, err
+}
+
+func (e *evaluator) evaluateNode(node parser.Node, current any, variables *variableScope) (any, error) {
 	switch node := node.(type) {
 	case *parser.AbsNode:
 		arg, err := e.evaluate(node.Argument, current, variables)
